@@ -110,3 +110,72 @@ def rule_release_resets_capacity(ctx, rule='R14.8'):
                     samples.append('%s releases %s and resets %s' % (where, pk[1], ', '.join(m[1] for m in sorted(pairs[pk]))))
     ctx.covered(rule, 'functions releasing a growable buffer also reset its capacity counter (pairs taken from the growth sites: %d buffers)' % len(pairs), n, floor=20, samples=samples)
     return pairs
+
+
+def _canon(s):
+    return s.replace(' ', '').replace('(', '').replace(')', '')
+
+
+def growth_needs(tus, pairs):
+    """{counter key: set of canonical 'needed element count' expressions the owner's growth tests compare it with}."""
+    counters = {c for v in pairs.values() for c in v}
+    needs = {}
+    for c, tu in sorted(tus.items()):
+        for fname, fn in tu.funcs.items():
+            if cfront.basename(fn.get('_locfile') or fn.get('_file')) != c:
+                continue
+            assigns = {}
+            for e in walk(cfront.body(fn)):
+                if is_assign(e) and e['opcode'] == '=' and strip(e['inner'][0]).get('kind') == 'DeclRefExpr':
+                    assigns.setdefault(render(e['inner'][0]), set()).add(_canon(render(e['inner'][1])))
+                if e.get('kind') == 'VarDecl' and 'init' in e:
+                    init = [x for x in e.get('inner', []) if x.get('kind') not in ('FullComment',)]
+                    if init:
+                        assigns.setdefault(e['name'], set()).add(_canon(render(init[-1])))
+            for st in walk(cfront.body(fn)):
+                if st.get('kind') not in ('IfStmt', 'WhileStmt'):
+                    continue
+                cond = strip(st['inner'][0])
+                if cond.get('kind') != 'BinaryOperator' or cond['opcode'] not in ('<', '>', '<=', '>=', '!='):
+                    continue
+                if not any(is_assign(e) and strip(e['inner'][1], casts=True).get('kind') == 'CallExpr' and callee_name(strip(e['inner'][1], casts=True)) == 'realloc'
+                           or (e.get('kind') == 'CallExpr' and (callee_name(e) or '').startswith('realloc_')) for e in walk(st)):
+                    continue
+                sides = [cond['inner'][0], cond['inner'][1]]
+                for i in (0, 1):
+                    ck = _member_key(sides[i])
+                    if ck in counters:
+                        other = render(sides[1 - i])
+                        vals = assigns.get(other, {_canon(other)})
+                        needs.setdefault(ck, set()).update(vals)
+    return needs
+
+
+def rule_capacity_trim(ctx, rule, cfile, fname):
+    """A function outside the owner that lowers a capacity counter (the serialiser trims the IAS15 arrays before writing
+    them) may only lower it to a count the owner's growth test itself asks for; anything smaller makes the owner
+    reallocate and zero its arrays at the next step, i.e. saving or serving a snapshot changes the trajectory."""
+    tus = cfront.load_tus()
+    pairs, sites = growth_pairs(tus)
+    needs = growth_needs(tus, pairs)
+    counters = {c for v in pairs.values() for c in v}
+    fn = tus[cfile].func(fname)
+    n = 0
+    samples = []
+    for e in walk(cfront.body(fn)):
+        if not (is_assign(e) and e['opcode'] == '='):
+            continue
+        ck = _member_key(e['inner'][0])
+        if ck not in counters:
+            continue
+        n += 1
+        from . import extents
+        v = _canon(extents.resolve(render(e['inner'][1]), extents.lets(fn)))
+        where = 'src/%s:%s %s' % (cfile, line_of(e), fname)
+        if v not in needs.get(ck, set()):
+            ctx.report(rule, '%s:%s' % (fname, ck[1]), where,
+                       '%s sets %s.%s to %s; the owner of the arrays sizes them for %s - a smaller value makes the next step reallocate and reset them, so saving/serving a snapshot alters the run'
+                       % (fname, ck[0].replace('struct ', ''), ck[1], render(e['inner'][1]), ' or '.join(sorted(needs.get(ck, {'?'})))))
+        else:
+            samples.append('%s trims %s to %s, one of the owner\'s sizes %s' % (where, ck[1], v, sorted(needs[ck])))
+    return n, samples
